@@ -8,6 +8,7 @@ import Driver.C10
 import Driver.C11
 import Driver.C18
 import Driver.C16
+import Driver.C16X
 import Driver.Groups
 import IGVerif.Gen.Facts
 open Drv Lean
@@ -24,7 +25,7 @@ def genFor (prop tier : String) (seed : Nat) : Except String (Array Case) :=
   | "C07" => pure (genC07Cases tier seed)
   | "C08" => pure (genVisCases tier seed "c08")
   | "C09" => pure (genVisCases tier seed "c09")
-  | "C16" => pure (genC16Cases tier seed)
+  | "C16" => pure (genC16AllCases tier seed)
   | "C17" => pure (genC17Cases tier seed)
   | "C18" => pure (genC18Cases tier seed)
   | "C20" => pure (genC20Cases tier seed)
@@ -48,7 +49,7 @@ def judgeFor (prop : String) : Except String (Case → ObsLine → Verdict) :=
   | "C07" => pure judgeC07
   | "C08" => pure (judgeVis true)
   | "C09" => pure (judgeVis true)
-  | "C16" => pure judgeParse
+  | "C16" => pure judgeC16
   | "C17" => pure (judgeVis true)
   | "C18" => pure judgeParse
   | "C20" => pure (judgeVis true)
